@@ -66,6 +66,14 @@ impl StateCheck for C08 {
                 out.compared += 1;
                 match (full, simp) {
                     (Ok(a), Ok(b)) => {
+                        // the CTE indicator computed from the result (what the program prints) is part of the result
+                        let da = cteepbd::cte::fraccion_renovable_acs_nrb(&a).map_err(|e| subj::err_kind(&e));
+                        let db = catch(|| cteepbd::cte::fraccion_renovable_acs_nrb(&b).map_err(|e| subj::err_kind(&e)));
+                        match (&da, &db) {
+                            (Ok(x), Ok(Ok(y))) if (x - y).abs() <= 1e-4 => out.regime("dhw_fraction_value"),
+                            (Err(x), Ok(Err(y))) if x == y => {}
+                            _ => out.viol("same_dhw_indicator", &[], &cfg, format!("simplified: {db:?}"), format!("full: {da:?}")),
+                        }
                         let (fa, fb) = (result_flat(&a), result_flat(&b));
                         let mag = subj::magnitude(&comps, f);
                         let ratios = crate::cmp::ratios_ok(&a, mag) && crate::cmp::ratios_ok(&b, mag);
@@ -122,6 +130,10 @@ fn extra_letters() -> Vec<Letter> {
         Letter::one(p(Some(1), "EAMBIENTE", &k(&[0, 0]))),
         Letter::many(vec![u(Some(6), "NEPB", "GASNATURAL", &k(&[3, 3])), a(Some(6), &k(&[1, 1]))]),
         Letter::many(vec![u(Some(6), "NEPB", "EAMBIENTE", &k(&[1, 0])), a(Some(6), &k(&[0, 1]))]),
+        // a cogeneration system with its own auxiliaries (its only CONSUMO line has service COGEN)
+        Letter::many(vec![p(Some(5), "EL_COGEN", &k(&[3, 1])), u(Some(5), "COGEN", "GASNATURAL", &k(&[6, 2])), a(Some(5), &k(&[1, 1]))]),
+        Letter::one(d("ACS", &k(&[1, 3]))),
+        Letter::one(u(Some(4), "ACS", "RED1", &k(&[1, 1]))),
     ]
 }
 
@@ -136,7 +148,7 @@ pub fn run(ctx: &Ctx) -> i32 {
             level: "model_checking",
             rule: "every FLOW state extended with output, auxiliary and demand lines (ids chosen so that an output line sorts before / after the first electricity line) x 3 prepared factor sets x 2 (k,load matching): evaluation with the full set vs with Factors::strip of it; non-trivial = strip removed at least one factor".into(),
             assumptions: strs(&["results compared with 2e-6 relative + 1e-6*magnitude (hash order may differ between the two evaluations)", "a panic inside strip or the evaluation is a violation of this property (it 'never crashes')"]),
-            required_regimes: strs(&["exports_to_nepb", "thermal_export", "output_lines", "cogeneration"]),
+            required_regimes: strs(&["exports_to_nepb", "thermal_export", "output_lines", "cogeneration", "dhw_fraction_value"]),
             extra: serde_json::json!({}),
         },
     )
